@@ -85,6 +85,13 @@ impl<'a> FullnameSerializer<'a> {
             .push(FullnameInfo::new(defined_namespaces, current_fullname_info));
     }
 
+    // like push, but always creates a frame that a later pop(true) removes
+    pub(crate) fn push_frame(&mut self, defined_namespaces: NamespaceDeclarations) {
+        let current_fullname_info = self.stack.last().unwrap();
+        self.stack
+            .push(FullnameInfo::new(defined_namespaces, current_fullname_info));
+    }
+
     pub(crate) fn has_empty_prefix(&self, namespace_id: NamespaceId) -> bool {
         let prefix_id = self
             .top()
